@@ -70,6 +70,13 @@ class KeysView(tuple):
     __hash__ = tuple.__hash__
 
 
+class CmpKey:
+    """The value of `functools.cmp_to_key(f)`: remembers the comparison function's expression and where it was written."""
+
+    def __init__(self, fn_node: ast.expr, env: dict):
+        self.fn_node, self.env = fn_node, env
+
+
 class PyIter:
     """An iterator object created by iter(<list>) inside interpreted code."""
 
@@ -147,6 +154,10 @@ class PyEval(MiniEval):
     def name(self, ident: str, env: dict) -> Any:
         if ident in env:
             return env[ident]
+        # model of the module's global names given by the rule (tables, singletons): seen from every followed function too
+        g_ = env.get("__globals__")
+        if isinstance(g_, dict) and ident in g_:
+            return g_[ident]
         if ident in BUILTIN_TYPES:
             return BUILTIN_TYPES[ident]
         if ident in ("True", "False", "None"):
@@ -160,6 +171,7 @@ class PyEval(MiniEval):
             val = getattr(st, "value", None)
             if isinstance(tgt, ast.Name) and tgt.id == ident and val is not None and (
                     isinstance(val, (ast.Dict, ast.List, ast.Set, ast.Tuple, ast.Constant))
+                    or (isinstance(val, ast.Call) and ast.unparse(val.func) in ("functools.cmp_to_key", "cmp_to_key") and len(val.args) == 1 and not val.keywords)
                     or not any(isinstance(x, (ast.Call, ast.Lambda, ast.Await, ast.Yield, ast.YieldFrom)) for x in ast.walk(val))):
                 # a literal display, or a call-free expression over constants (`_BITS = 1 << NumericType.INT_WIDTH`)
                 try:
@@ -192,7 +204,7 @@ class PyEval(MiniEval):
                     self.depth += 1
                     try:
                         pname = m.node.args.args[0].arg
-                        hooks = {k: v for k, v in env.items() if callable(v)}
+                        hooks = {k: v for k, v in env.items() if callable(v) or k == "__globals__"}
                         out = self.run(m.node.body, {**hooks, pname: value})
                     finally:
                         self.depth -= 1
@@ -293,6 +305,9 @@ class PyEval(MiniEval):
             return (a, b) if not isinstance(a, tuple) else (*a, b)
         if isinstance(a, tuple) and a and isinstance(a[0], type) and isinstance(b, type) and isinstance(op, ast.BitOr):
             return (*a, b)
+        if isinstance(a, bool) and isinstance(b, bool) and isinstance(op, (ast.BitAnd, ast.BitOr, ast.BitXor)):
+            # `flag &= test` / `a | b` on truth values (both operands are always evaluated)
+            return (a and b) if isinstance(op, ast.BitAnd) else ((a or b) if isinstance(op, ast.BitOr) else (a != b))
         if isinstance(a, (int, float)) and isinstance(b, (int, float)) and not isinstance(a, bool):
             try:
                 if isinstance(op, ast.Add):
@@ -566,7 +581,10 @@ class PyEval(MiniEval):
                             return r
                         break
                 continue
-            if isinstance(st, ast.FunctionDef) and not st.decorator_list:
+            if isinstance(st, ast.FunctionDef) and all(
+                    (isinstance(d_, ast.Call) and ast.unparse(d_.func) in ("functools.wraps", "wraps"))
+                    or getattr(env.get(ast.unparse(d_)), "__gsa_decorator__", False) for d_ in st.decorator_list):
+                # decorators: `functools.wraps(f)` (metadata only) and decorators the rule models (marked __gsa_decorator__)
                 a = st.args
                 if a.vararg or a.kwarg or a.kwonlyargs:
                     raise Unsupported("nested function with varargs / keyword-only parameters")
@@ -586,6 +604,10 @@ class PyEval(MiniEval):
                         raise Raised(str(r[1]), str(r[1]))
                     return r[1] if r[0] == "return" else None
                 _fn.__gsa_lambda__ = True  # type: ignore[attr-defined]
+                for d_ in reversed(st.decorator_list):
+                    if not isinstance(d_, ast.Call):
+                        _fn = env[ast.unparse(d_)](_fn)
+                        _fn.__gsa_lambda__ = True  # type: ignore[attr-defined]
                 env[st.name] = _fn
                 continue
             if isinstance(st, ast.Try):
@@ -679,6 +701,13 @@ class PyEval(MiniEval):
                 cls = ""
                 if isinstance(st.exc, ast.Call):
                     cls = dotted(st.exc.func).split(".")[-1]
+                    # the arguments of the exception are evaluated too (`raise GuppyError(UnsupportedError(param, ...))`: the
+                    # rule's recorder for the diagnostic sees which node is blamed); what cannot be evaluated is skipped
+                    for a_ in list(st.exc.args) + [k_.value for k_ in st.exc.keywords]:
+                        try:
+                            self.ev(a_, env)
+                        except Unsupported:
+                            pass
                     # `raise self._build_error(...)`: a repository helper that builds the exception -- its return annotation
                     # names the class that is raised
                     helper = None
@@ -852,6 +881,8 @@ class PyEval(MiniEval):
             return env[fn](*[self.ev(a, env) for a in node.args])
         if fn in env and callable(env[fn]):
             return env[fn](node, self, env)
+        if fn in ("functools.cmp_to_key", "cmp_to_key") and len(node.args) == 1 and not node.keywords:
+            return CmpKey(node.args[0], env)
         args = None
 
         def A() -> list:
@@ -1001,6 +1032,24 @@ class PyEval(MiniEval):
             if not isinstance(v, Tok) and all(isinstance(x, Opaque) for x in ts):
                 return False  # a plain Python value is not an instance of a repository class
             raise Unsupported(f"isinstance against {t!r}")
+        if fn in ("getattr", "hasattr") and len(node.args) in (2, 3) and not node.keywords and isinstance(A()[0], Tok) and isinstance(A()[1], str):
+            # getattr(tok, "name"[, default]) / hasattr(tok, "name"): the token's own attributes, then properties / class constants
+            obj_, nm_ = A()[0], A()[1]
+            if nm_ in obj_.attrs:
+                found_ = obj_.attrs[nm_]
+            else:
+                probe_ = ast.Attribute(value=ast.Name(id="__getattr_obj__", ctx=ast.Load()), attr=nm_, ctx=ast.Load())
+                ast.copy_location(probe_, node)
+                ast.fix_missing_locations(probe_)
+                found_ = self.attr(obj_, nm_, probe_, {**env, "__getattr_obj__": obj_})
+            missing_ = isinstance(found_, Opaque)
+            if fn == "hasattr":
+                return not missing_
+            if not missing_:
+                return found_
+            if len(node.args) == 3:
+                return A()[2]
+            raise Raised(f"no attribute {nm_}", "AttributeError")
         if fn == "type" and len(node.args) == 1:
             v = A()[0]
             if isinstance(v, (Opaque, Tok)):
@@ -1092,24 +1141,29 @@ class PyEval(MiniEval):
                         acc = self.binop(ast.BitOr(), acc, x)
                 return acc
             raise Unsupported(f"reduce with {op!r}")
-        if fn == "sorted" and len(node.args) == 1 and isinstance(A()[0], (list, tuple)) and len(node.keywords) == 1 and node.keywords[0].arg == "key" \
-                and isinstance(node.keywords[0].value, ast.Call) and ast.unparse(node.keywords[0].value.func) in ("functools.cmp_to_key", "cmp_to_key") \
-                and len(node.keywords[0].value.args) == 1 and not node.keywords[0].value.keywords:
-            # sorted(xs, key=cmp_to_key(f)): the comparison function (a lambda or a followed function) is interpreted per pair
-            import functools as _ft
-            cmp_node = node.keywords[0].value.args[0]
-            probe = ast.Call(func=cmp_node, args=[ast.Name(id="__cmp_a__", ctx=ast.Load()), ast.Name(id="__cmp_b__", ctx=ast.Load())], keywords=[])
-            ast.copy_location(probe, node)
-            ast.fix_missing_locations(probe)
-            if not (isinstance(cmp_node, ast.Lambda) or self.is_followed_call(probe, env)):
-                raise Unsupported(f"cmp_to_key of {ast.unparse(cmp_node)}")
+        if fn == "sorted" and len(node.args) == 1 and isinstance(A()[0], (list, tuple)) and len(node.keywords) == 1 and node.keywords[0].arg == "key":
+            keyv = None
+            try:
+                keyv = self.ev(node.keywords[0].value, env)
+            except Unsupported:
+                keyv = None
+            if isinstance(keyv, CmpKey):
+                # sorted(xs, key=cmp_to_key(f)) -- also through a module constant `_ORDER = cmp_to_key(f)`: the comparison function
+                # (a lambda or a followed function) is interpreted per pair
+                import functools as _ft
+                cenv = {**{k: v for k, v in env.items() if callable(v) or k == "__globals__"}, **keyv.env}
+                probe = ast.Call(func=keyv.fn_node, args=[ast.Name(id="__cmp_a__", ctx=ast.Load()), ast.Name(id="__cmp_b__", ctx=ast.Load())], keywords=[])
+                ast.copy_location(probe, node)
+                ast.fix_missing_locations(probe)
+                if not (isinstance(keyv.fn_node, ast.Lambda) or self.is_followed_call(probe, cenv)):
+                    raise Unsupported(f"cmp_to_key of {ast.unparse(keyv.fn_node)}")
 
-            def _cmp(a_, b_):
-                r_ = self.ev(probe, {**env, "__cmp_a__": a_, "__cmp_b__": b_})
-                if not isinstance(r_, int) or isinstance(r_, bool):
-                    raise Unsupported(f"comparison function gives {r_!r}")
-                return r_
-            return sorted(list(A()[0]), key=_ft.cmp_to_key(_cmp))
+                def _cmp(a_, b_):
+                    r_ = self.ev(probe, {**cenv, "__cmp_a__": a_, "__cmp_b__": b_})
+                    if not isinstance(r_, int) or isinstance(r_, bool):
+                        raise Unsupported(f"comparison function gives {r_!r}")
+                    return r_
+                return sorted(list(A()[0]), key=_ft.cmp_to_key(_cmp))
         if fn == "sorted" and len(node.args) == 1 and isinstance(A()[0], (list, tuple, set, frozenset, dict)):
             xs = list(A()[0])
             kws = {k.arg: self.ev(k.value, env) for k in node.keywords if k.arg}
@@ -1188,7 +1242,7 @@ class PyEval(MiniEval):
             raise Unsupported("call depth")
         params = [a.arg for a in f.node.args.posonlyargs + f.node.args.args]
         defaults = f.node.args.defaults
-        new: dict = {k: v for k, v in env.items() if callable(v) or k.startswith("__hook")}
+        new: dict = {k: v for k, v in env.items() if callable(v) or k.startswith("__hook") or k == "__globals__"}
         vals = self._positional(node, env)
         for p, v in zip(params, vals):
             new[p] = v
@@ -1252,7 +1306,7 @@ class PyEval(MiniEval):
             raise Unsupported("call depth")
         params = [a.arg for a in f.node.args.posonlyargs + f.node.args.args]
         static = "staticmethod" in f.decorator_names()
-        new: dict = {k: v for k, v in env.items() if callable(v)}
+        new: dict = {k: v for k, v in env.items() if callable(v) or k == "__globals__"}
         vals = self._positional(node, env)
         names = params if static else params[1:]
         if not static and params:
@@ -1281,7 +1335,7 @@ class PyEval(MiniEval):
         if self.depth >= self.max_depth:
             raise Unsupported("call depth")
         params = [a.arg for a in f.node.args.args]
-        new: dict = {k: v for k, v in env.items() if callable(v)}
+        new: dict = {k: v for k, v in env.items() if callable(v) or k == "__globals__"}
         new[params[0]] = recv
         for p_, v in zip(params[1:], vals):
             new[p_] = v
